@@ -53,6 +53,8 @@ func genRPC06(t *rapid.T, excl *string) sim.RPC {
 		}
 		// a request the application's encoding cannot marshal: Invoke fails after the stream was created
 		p.BadRequest = rapid.IntRange(0, 7).Draw(t, "badreq") == 0
+		// or a response the encoding cannot unmarshal: Invoke fails after the handler answered
+		p.BadResponse = !p.BadRequest && rapid.IntRange(0, 7).Draw(t, "badresp") == 0
 	} else {
 		p.Client.Steps = rapid.SliceOfN(clientStepGen, 0, 6).Draw(t, "csteps")
 		p.Handler.Steps = rapid.SliceOfN(handlerStepGen, 0, 5).Draw(t, "hsteps")
@@ -208,7 +210,7 @@ func runC06(c c06Case) (r pbt.Result) {
 	}
 	early, softCancel, herr, badreq := false, false, false, false
 	for _, rp := range c.RPCs {
-		if rp.BadRequest {
+		if rp.BadRequest || rp.BadResponse {
 			badreq = true
 		}
 		for _, s := range rp.Client.Steps {
